@@ -720,7 +720,7 @@ func (d *decls) visit(t *Term) {
 		d.strLits[t.Str] = true
 	case "int":
 		if t.Int.IsInt64() {
-			if v := t.Int.Int64(); v >= 1 && v < 100000 {
+			if v := t.Int.Int64(); v >= 1 && v < 2000000000 {
 				d.intLits[v] = true
 			}
 		}
